@@ -1,21 +1,21 @@
 CLAIMS = {
  "C01": ("typed-AST table extraction + sibling-skeleton comparison against a frozen operator table",
          "Decides: operator symbol -> opcode -> handler -> py API -> dunder chain; dispatch skeleton (operand order, reflection guard). "
-         "Also decides: the unpack_iterable decision table (store order of UNPACK_SEQUENCE/UNPACK_EX targets). Does not decide: computed values, run-time dunder lookup on user classes. Trusted: go/types, the operator table in gpycheck/c01_ops.go.",
+         "Also decides: the unpack_iterable decision table (store order of UNPACK_SEQUENCE/UNPACK_EX targets). Third-round additions: no Go == between two arbitrary objects outside the identity primitive. Does not decide: computed values, run-time dunder lookup on user classes. Trusted: go/types, the operator table in gpycheck/c01_ops.go.",
          "DESIGN.md §4 C01"),
  "C09": ("must-hold lockset walk + statement-order/pairing analysis over the context lifecycle methods (typed AST)",
          "Decides: release iff admitted in every caller; lifecycle fields only under the context mutex; closed-test and increment in one critical section; "
          "closed set in the critical section that observes quiescence (or before the wait); wait < callbacks < close(done) inside sync.Once; entry points admitted first. "
-         "Also decides: close callbacks enumerated from the module table itself (exactly once per module). Does not decide: liveness/deadlock freedom, re-entrant Close from inside an execution. Trusted: go/types, sync semantics.",
+         "Also decides: close callbacks enumerated from the module table itself (exactly once per module). Third-round additions: the context mutex is released before close callbacks run. Does not decide: liveness/deadlock freedom, re-entrant Close from inside an execution. Trusted: go/types, sync semantics.",
          "DESIGN.md §4 C09"),
  "C05": ("edge-sensitive error-value flow on go/ssa (iterator errors) + symbolic path interpretation of Generator.Send and the yield opcodes",
          "Decides: every consumer of py.Next/Send/M__next__ propagates or classifies (StopIteration only) the error; iteration hubs' errors propagated; generator typestate "
          "(Running bracket, finished stays finished, exception exit finishes, return value carried, send pushed once on resume), yield/return opcode protocol, yield-before-unwind. "
-         "Also decides: no ineffective break (tail of a switch case inside a loop) in the iteration hubs. Does not decide: that the code between two yields is 'exactly the code up to the next yield' (VM semantics); throw()/close() (unimplemented in gpython).",
+         "Also decides: no ineffective break (tail of a switch case inside a loop) in the iteration hubs. Third-round additions: Running is false at every exit of Send. Does not decide: that the code between two yields is 'exactly the code up to the next yield' (VM semantics); throw()/close() (unimplemented in gpython).",
          "DESIGN.md §4 C05"),
  "C12": ("abstract interpretation of opcode handlers over a symbolic stack vs the compiler's stack-effect table; table/dispatch exhaustiveness; jump-addressing agreement (typed AST)",
          "Decides: per-opcode handler net stack effect = opcodeStackEffect (+stackDepthWalk jump adjustments) on every successful path; every opcode handled and every emitted opcode tabled; "
-         "abs/rel jump agreement between emitter and handlers; argument-taking agreement. Also decides: the EndsWithReturn decision table (a trailing label is not a return). Does not decide: the property's second sentence (depths actually reached at run time), "
+         "abs/rel jump agreement between emitter and handlers; argument-taking agreement. Also decides: the EndsWithReturn decision table (a trailing label is not a return). Third-round additions: Instructions.Pass decision table. Does not decide: the property's second sentence (depths actually reached at run time), "
          "line-table monotonicity for every program, StackDepth's walk being the maximum over all paths.",
          "DESIGN.md §4 C12"),
  "C02": ("decision-table extraction by symbolic interpretation of the unwinding loop (block type x reason); emission-trace comparison of statement code schemes",
@@ -25,11 +25,11 @@ CLAIMS = {
  "C04": ("emission-trace comparison of the call-site and function-object protocols (symbolic interpretation of the compiler); grammar-action analysis with an own yacc reader; raise-site census and loop-bound structure of the binders (typed AST)",
          "Decides: push order of callee/positionals/keyword pairs/*/**, opcode by star forms, packed argc; decorators, defaults, kw-defaults, annotations, closure, code, qualname order for MAKE_FUNCTION/MAKE_CLOSURE; arglist actions extend the call node with append; keyword-only defaults stay aligned with their arguments; "
          "each binder (EvalCode, ParseTupleAndKeywords, UnpackTuple, Vm.Call, Method.Call) still contains its TypeError sites for duplicate/unexpected/missing/keyword-only/surplus arguments; EvalCode matches keywords only against the first Argcount+Kwonlyargcount names. "
-         "Does not decide: the binder's index arithmetic in EvalCode (value-dependent), TypeError wording, native signature dispatch beyond its raise sites.",
+         "Third-round additions: native special-method wrappers demand the arity of the function they wrap; both parameter counts set together. Does not decide: the binder's index arithmetic in EvalCode (value-dependent), TypeError wording, native signature dispatch beyond its raise sites.",
          "DESIGN.md §4 C04"),
  "C19": ("emission-trace comparison of import statement code schemes; who-may-write and statement-order analysis of the module store and the import function (typed AST)",
          "Decides: IMPORT_NAME/IMPORT_FROM/IMPORT_STAR/POP_TOP schemes and name binding for import forms; the store's module table is written only where a module is created and creation precedes running its code (a module is importable while its body runs); "
-         "ImportModuleLevelObject consults the store first by the given name, never reassigns it and registers a source module under it; star import filters underscores only without __all__. Does not decide: which exception a missing module raises; state left by a failing module body; path resolution.",
+         "ImportModuleLevelObject consults the store first by the given name, never reassigns it and registers a source module under it; star import filters underscores only without __all__. Third-round additions: the module's code runs in the module's own dictionary, which is never replaced. Does not decide: which exception a missing module raises; state left by a failing module body; path resolution.",
          "DESIGN.md §4 C19"),
  "C20": ("emission-trace comparison (PRINT_EXPR gating); decision table of the REPL driver by symbolic path enumeration",
          "Decides: PRINT_EXPR only for interactive top-level expression statements; every path of REPL.Run (buffering in continuation mode, entering it on incomplete input with the line buffered, leaving it and clearing the buffer on every other outcome before reporting or running) equals the reviewed table. "
@@ -38,36 +38,37 @@ CLAIMS = {
  "C11": ("recover-barrier recognition, panic-argument classification with exhaustiveness discharge, comma-ok/nil-dereference lint, lost-update lint, compiler-proved bounds checks (go build -d=ssa/check_bce) and unchecked-assertion census against confirmed tables",
          "Decides: each pipeline stage is a recover barrier and nothing that can panic runs outside one; every explicit panic is SyntaxError-family, a re-panic from a barrier, provably unreachable (exhaustive switch) or a confirmed row; "
          "comma-ok results are never dereferenced on the failing branch; struct-copy updates are not lost; every index/slice the Go compiler cannot prove and every unchecked type assertion is a confirmed row. "
-         "Also decides: the assembler's give-up limit scales with the instruction count. Does not decide: termination of the lexer/parser, pathological slowness; the confirmed rows are beliefs checked by reading, not proofs.",
+         "Also decides: the assembler's give-up limit scales with the instruction count. Third-round additions: Symbols.Update decision table; grammar side of the 'ExtSlice never nested' belief. Does not decide: termination of the lexer/parser, pathological slowness; the confirmed rows are beliefs checked by reading, not proofs.",
          "DESIGN.md §4 C11"),
  "C08": ("SSA scan for stores rooted at package-level variables with call-graph init-only classification; must-hold lockset on the registry; who-may-write censuses for ModuleImpl/Code fields; module-global container sharing analysis",
          "Decides: no run-time write of package-level state outside initialisers/hooks (known finding: repl rebinding vm.PrintExpr); registry accessed under its mutex; module instances get their own containers; ModuleImpl (and anything reached from one through a parameter) and Code are not written after construction; exception fields are stored only by the allocating function (known finding: vm.raise Cause); "
-         "no goroutines in the core. Known finding: built-in type dictionaries are writable from Python. Does not decide: data-race freedom of objects contexts share by design (sys.stdout), state reachable only through object graphs (no alias analysis).",
+         "no goroutines in the core. Known finding: built-in type dictionaries are writable from Python. Third-round additions: who may call the sanctioned cell writer; census of stores into fields of a *py.Type parameter. Does not decide: data-race freedom of objects contexts share by design (sys.stdout), state reachable only through object graphs (no alias analysis).",
          "DESIGN.md §4 C08"),
  "C18": ("map-iteration commutativity classification (typed AST, callees inlined); SSA scan of the call-graph region of the pipeline for package-level writes and nondeterminism sources",
          "Decides: every map range in the pipeline commutes or is sorted before use; the pipeline region writes no package-level state and consults no clock/random/environment/goroutine. "
          "Assumes: sequential Go without those sources is deterministic; comparison methods of constant types reached through py.Eq are pure (dynamic edges leaving the pipeline packages are not followed).",
+         "Third-round additions: package-level arrays written by the pipeline. "
          "DESIGN.md §4 C18"),
  "C06": ("own yacc reader + goyacc regeneration compared as position-free syntax trees; grammar production/action table checks; lexer token-table comparison with a frozen Python 3.4 token table",
          "Decides: y.go is what goyacc generates from grammar.y; operator cascade order, associativity, node construction and flattening discipline; comp_op/augassign tables; operator and keyword tables, longest match, bracket counters and NEWLINE/INDENT gating; "
-         "target contexts set in every binding production; Unicode-class / whitespace-folding helpers only at reviewed sites in package parser (exact character classes). Does not decide: literal values (escape decoding, number conversion), indentation arithmetic, completeness of rejection — functions of input bytes.",
+         "target contexts set in every binding production; Unicode-class / whitespace-folding helpers only at reviewed sites in package parser (exact character classes). Third-round additions: per-iteration flags cleared where consumed; no dead grammar attributes; ExtSlice nesting guarded by isExpr. Does not decide: literal values (escape decoding, number conversion), indentation arithmetic, completeness of rejection — functions of input bytes.",
          "DESIGN.md §4 C06"),
  "C10": ("recover-barrier recognition and coverage (typed AST): barrier-first in RunFrame/EvalCode/py.Call, single handler dispatch site under a barrier, hooks bound to barrier functions, delivery shape of the deferred closures, census of process-exit calls and goroutines",
          "Decides: every execution path from the run/call API to opcode handlers and builtins passes through a barrier that converts a recovered panic into the returned error; no goroutine / os.Exit / log.Fatal escape route in library code. "
-         "Also checks for a recursion bound on the frame evaluator's call cycle (known finding: absent). Does not decide: that no builtin panics (the barriers hold them back; they surface as SystemError), nor the exception class delivered for an internal fault.",
+         "Also checks for a recursion bound on the frame evaluator's call cycle (known finding: absent). Third-round additions: the admission count is released by a deferred call (C10.R5). Does not decide: that no builtin panics (the barriers hold them back; they surface as SystemError), nor the exception class delivered for an internal fault.",
          "DESIGN.md §4 C10"),
  "C03": ("decision-table extraction by symbolic interpretation (AnalyzeName, AddDef, NameOp) against tables transcribed from CPython symtable.c/compile.c; statement-order and aliasing rules for AnalyzeChildBlock/EvalCode",
          "Decides: the scope classification table (flags x block kind x enclosing sets -> scope), the definition table (AddDef), scope x context -> opcode family and index space (NameOp), child-block analysis on copies of the parent's sets, "
-         "cell/free slot layout agreement between compiler, closure builder and EvalCode. Also decides: the AnalyzeBlock decision table (class-block copies before own names) and that every total_args is Argcount+Kwonlyargcount. Does not decide: run-time lookup order in LOAD_NAME/LOAD_GLOBAL for a particular program (values), name mangling (unimplemented in gpython).",
+         "cell/free slot layout agreement between compiler, closure builder and EvalCode. Also decides: the AnalyzeBlock decision table (class-block copies before own names) and that every total_args is Argcount+Kwonlyargcount. Third-round additions: both parameter counts of a code object set together; decision tables of the name opcodes and Frame.Lookup/LookupGlobal. Does not decide: run-time lookup order in LOAD_NAME/LOAD_GLOBAL for a particular program (values), name mangling (unimplemented in gpython).",
          "DESIGN.md §4 C03"),
  "C13": ("may-alias (storage-sharing) propagation on go/ssa with per-function summaries; typed-AST structure rules on the slice normaliser and its consumers",
          "Decides: the clause 'results never alias a mutable operand' as a census — no function of py/vm/stdlib returns or keeps storage shared with a container argument unless on a reviewed list; no view of the VM value stack becomes an object; no append onto an immutable operand's array. "
          "Structural necessary conditions of the index model: start/stop normalised symmetrically with clips equal to the defaults of the step sign; extended slices walked direction-agnostically; start/stop ordered before use as Go slice bounds; one normalisation point (only Slice reads its fields); concatenation copies laid out cumulatively. "
-         "Does not decide: the values of indexing/slicing results for all indices (arithmetic on run-time integers), comparison/ordering/membership results, str/bytes specifics, exception choice.",
+         "Third-round additions: range ==; __ne__ complements __eq__; list slice assignment never reads its operand's array in place. Does not decide: the values of indexing/slicing results for all indices (arithmetic on run-time integers), comparison/ordering/membership results, str/bytes specifics, exception choice.",
          "DESIGN.md §4 C13"),
  "C17": ("may-alias (storage-sharing) propagation on go/ssa with per-function summaries; identity obligations for in-place operators and the list iterator",
          "Decides: the aliasing clause — copies (list(x), x+y, x[a:b], x.copy(), dict(**kw), set(x), tuple(list), type(name,bases,ns)) never share backing storage with their operands, f(**d) passes a new dict, in-place operators of mutable containers evaluate to the receiver, the list iterator refers to the list itself. "
-         "Does not decide: equality of every observation with a reference model over histories (values), dict/set element semantics, mutation of a container while it is its own operand (e.g. a[2:3] = a).",
+         "Third-round additions: list slice assignment reads its operand before mutating; decision tables of List.M__setitem__/M__delitem__, Set.inPlace and the sort comparison. Does not decide: equality of every observation with a reference model over histories (values), dict/set element semantics, mutation of a container while it is its own operand (e.g. a[2:3] = a).",
          "DESIGN.md §4 C17"),
  "C07": ("typed-AST guard analysis (structured dominance) of partial machine operators; constant evaluation by the type checker; operator/comparison/reflection tables; type-switch reachability",
          "Decides necessary structural conditions of exact integer arithmetic: representation constants (IntMax, IntMin, sqrtIntMax = isqrt(IntMax)); every -x on a word excludes IntMin, every / and % tests the divisor (and IntMin / -1), every shift by a converted signed count tests < 0, every big.Int division tests the sign; "
@@ -77,12 +78,12 @@ CLAIMS = {
  "C15": ("typed-AST guard analysis of float/complex division; comparison/reflection tables; protocol and tower-coverage checks; constant-exactness and threshold evaluation by the type checker",
          "Decides necessary structural conditions: float and complex /, //, % test the divisor and raise ZeroDivisionError; Float/Complex comparisons use their own operator; reflected methods exchange operands; numeric binary methods answer NotImplemented for operands they cannot convert; "
          "the conversion functions cover the numeric tower; float text form tests nan/inf before Go formatting and does not detour through a machine integer; an integer limit used as a float bound is exactly representable or excluded; the remainder fix-up depends on the divisor's sign; BigInt.Float's threshold cannot reach +Inf. "
-         "Does not decide: IEEE results, exactness of int/float comparison (known to be lossy for |n| > 2**53: convertToFloat rounds), shortest round-trip text, correctness of round() digits, sum/min/max folding.",
+         "Third-round additions: float round() never computes or compares with an inexact power of ten (R10). Does not decide: IEEE results, exactness of int/float comparison (known to be lossy for |n| > 2**53: convertToFloat rounds), shortest round-trip text, correctness of round() digits, sum/min/max folding.",
          "DESIGN.md §4 C15"),
  "C14": ("per-function unit inference (character counts vs byte offsets) over the typed AST of the string code; writer/reader escape-table agreement; constant evaluation",
          "Decides: Go string slices/indexes use byte offsets only (or sit under an ASCII guard), String.pos/slice receive character positions only, the two index spaces are never added, positions returned to Python count characters, a one-byte window stands for a character only under an ASCII guard; "
          "every escape form repr writes is decoded by the literal reader with the same width; chr() rejects exactly from 0x110000; the one-element tuple repr has its comma. "
-         "Also decides: every return of StringEscape lies after its per-character loop. Does not decide: the results of search/split/strip/replace for all strings, comparison order, the full repr/eval round trip for every value (floats and nested containers are values), normalisation of negative start/end in count/find.",
+         "Also decides: every return of StringEscape lies after its per-character loop. Third-round additions: StringEscape decision table per character class; ascii-mode paths write only characters below 0x7F raw. Does not decide: the results of search/split/strip/replace for all strings, comparison order, the full repr/eval round trip for every value (floats and nested containers are values), normalisation of negative start/end in count/find.",
          "DESIGN.md §4 C14"),
  "C16": ("typed-AST phase-order analysis of the generic attribute read; decision tables of the binding methods by symbolic path enumeration; call-graph reachability; loop-bound structure of the C3 merge; storage-sharing analysis on class creation",
          "Decides: a class read consults the class's own MRO and binds with __get__(None, class); the phases of the generic read come in the defined order with the defined __get__ arguments; Function/Method bind the instance, ClassMethod the class, StaticMethod nothing; "
